@@ -538,9 +538,12 @@ def decideFn : Nat → Env → Nat → String → List String → List Node → 
           | _, _, _ => (none, unmodelled s3 "between: cannot tell whether float() succeeds")
       | _ => (none, unmodelled s "between: arity")
     else if name == "concat" || name == "lower" || name == "strip" || name == "add" || name == "subtract"
-        || name == "minus" || name == "multiply" || name == "int" || name == "counter" then
+        || name == "minus" || name == "multiply" || name == "int" || name == "counter" || name == "sum"
+        || name == "subtotal" then
       let (_, s1) := evalV fuel env (.fn id name q args) s
       (dflt, s1)
+    else if name == "first" then viaValue (fun x => some (x == .none))
+    else if name == "tally" then viaValue (fun _ => some true)
     else if name == "upper" then viaValue (fun x => some (!(x == .none)))
     else if name == "length" then
       viaValue (fun x => match x with | .int i => some (decide (i > 0)) | _ => none)
@@ -772,6 +775,77 @@ def produceFn : Nat → Env → Nat → String → List String → List Node →
         match cur, (if inc.1 == .none then R.ok (1 : Int) else toInt inc.1) with
         | .int c, .ok d => let s3 := setVariable s2 cname none (.int (c + d)); (.int (c + d), s3)
         | _, _ => (.none, unmodelled s2 "counter on a non-int variable")
+    else if name == "first" then
+      -- first.py: the line number of the first sighting of the (stringified) value; None on a first sighting
+      if args.isEmpty then (.none, unmodelled s "first: arity")
+      else
+        let (txt, s1) := args.foldl (fun (acc : String × ES) a =>
+            let (x, sa) := evalV fuel env a acc.2
+            let (f, sb) := fmt sa x
+            (acc.1 ++ f, sb)) ("", s)
+        let key := Value.str (Model.PyStr.strip txt)
+        let myId := (firstNonTerm q).getD name
+        let (v, s2) := getVariable s1 myId (some key) none
+        if v == .none then (.none, setVariable s2 myId (some key) (.int env.idx))
+        else (v, s2)
+    else if name == "tally" then
+      -- tally.py: one counter per sibling and value, plus one for the combination
+      let base := (firstNonTerm q).getD "tally"
+      let store := fun (st : ES) (nm : String) (txt : String) =>
+        let vname := if nm == "" then base else base ++ "_" ++ nm
+        if Model.PyStr.strip txt == "" then st
+        else
+          let (cnt, st1) := getVariable st vname (some (.str txt)) none
+          match (if cnt == .none then some (0 : Int) else match cnt with | .int c => some c | _ => none) with
+          | some c => setVariable st1 vname (some (.str txt)) (.int (c + 1))
+          | none => unmodelled st1 "tally on a non-int counter"
+      let nameOf := fun (n : Node) => match n with
+        | .header _ (.name h) _ => some h
+        | .header _ (.index i) _ => some (toString i)
+        | .var _ v _ => some v
+        | .fn _ f _ _ => some f
+        | _ => none
+      let r := args.foldl (fun (acc : String × ES) a =>
+          let (x, sa) := evalV fuel env a acc.2
+          let (f, sb) := fmt sa x
+          match nameOf a with
+          | some nm => (acc.1 ++ f ++ "|", store sb nm f)
+          | none => (acc.1, unmodelled sb "tally of a term or equality")) ("", s)
+      let s2 := if args.length > 1 then store r.2 "" (String.ofList (r.1.toList.dropLast)) else r.2
+      (.bool true, s2)
+    else if name == "sum" then
+      match args with
+      | [a] =>
+        let vname := (firstNonTerm q).getD name
+        let (cur, s1) := getVariable s vname none (some (.int 0))
+        let (x, s2) := evalV fuel env a s1
+        let add : R (Int × Bool) := if isNone x then .ok (0, false) else match pyFloat x with
+          | .ok v => .ok (v, true)
+          | .unmodelled w => .unmodelled w
+        (match cur, add with
+         | .int c, .ok (v, isf) => let r := if isf then Value.flt (c + v) else Value.int (c + v); (r, setVariable s2 vname none r)
+         | .flt c, .ok (v, _) => let r := Value.flt (c + v); (r, setVariable s2 vname none r)
+         | _, .unmodelled w => (.none, unmodelled s2 w)
+         | _, _ => (.none, unmodelled s2 "sum on a non-number variable"))
+      | _ => (.none, unmodelled s "sum: arity")
+    else if name == "subtotal" then
+      match args with
+      | [a, b] =>
+        let vname := (firstNonTerm q).getD name
+        let (t, s1) := evalV fuel env a s
+        let (c, s2) := evalV fuel env b s1
+        if t == .none then (.none, unmodelled s2 "subtotal by None")
+        else
+          let (cur, s3) := getVariable s2 vname (some t) (some (.int 0))
+          let add : R Int := if c == .none then .ok 0 else match c with
+            | .str txt => if Model.PyStr.strip txt == "" then .ok 0 else pyFloat c
+            | _ => pyFloat c
+          (match cur, add with
+           | .int k, .ok v => let r := Value.flt (k + v); (r, setVariable s3 vname (some t) r)
+           | .flt k, .ok v => let r := Value.flt (k + v); (r, setVariable s3 vname (some t) r)
+           | _, .unmodelled w => (.none, unmodelled s3 w)
+           | _, _ => (.none, unmodelled s3 "subtotal on a non-number variable"))
+      | _ => (.none, unmodelled s "subtotal: arity")
     else if name == "every" then
       match firstNonTerm q, args with
       | some ename, [a, b] =>
